@@ -37,6 +37,9 @@ pub struct IngestCfg {
     pub world: WorldParams,
     /// Forged copies per honest operation: numerator out of 8.
     pub forge_num: usize,
+    /// 0 = one ingest call at a time; n >= 2 = the deliveries are spread over n concurrent ingest
+    /// activities which interleave at every store call (SqliteStore only).
+    pub concurrent: usize,
 }
 
 // ------------------------------------------------------------------------------------------------
@@ -447,7 +450,11 @@ async fn dump_all<S: IngestStore>(store: &S, keys: &BTreeSet<(VerifyingKey, LogI
 pub fn run_ingest(cfg: &IngestCfg) {
     let cfg = cfg.clone();
     stepexec::block_on(async move {
-        if cfg.sqlite {
+        if cfg.concurrent >= 2 {
+            let store = sqlite_memory().await;
+            run_concurrent(&cfg, store.clone()).await;
+            store.pool().close().await;
+        } else if cfg.sqlite {
             let store = sqlite_memory().await;
             run_on(&cfg, store.clone()).await;
             store.pool().close().await;
@@ -667,6 +674,228 @@ where
             total += 1;
             if !honest.contains_key(&e.1) {
                 viol(cfg, Which::C01, "stored-id-not-honest", "final-dump", format!("log {}:{} holds {}", short_key(&k.0), k.1, e.1));
+            }
+        }
+    }
+    ev!("final: {} entries stored in {} logs", total, fin.len());
+}
+
+// ------------------------------------------------------------------------------------------------
+// Concurrent ingest: several ingest activities interleaving at every store call
+// ------------------------------------------------------------------------------------------------
+
+/// Who holds the store's transaction permit (tokio's semaphore is FIFO and hands a released permit
+/// to the first waiter at once). Lets StepExec classify a `Pending` inside `begin()` exactly.
+#[derive(Default)]
+struct PermitModel {
+    holder: Option<usize>,
+    queue: std::collections::VecDeque<usize>,
+}
+
+impl PermitModel {
+    fn attempt(&mut self, w: usize) {
+        if self.holder.is_none() && self.queue.is_empty() {
+            self.holder = Some(w);
+        } else if self.holder != Some(w) && !self.queue.contains(&w) {
+            self.queue.push_back(w);
+        }
+    }
+    fn release(&mut self, w: usize) {
+        if self.holder == Some(w) {
+            self.holder = self.queue.pop_front();
+        } else {
+            self.queue.retain(|x| *x != w);
+        }
+    }
+}
+
+#[derive(Clone)]
+struct IngestGate {
+    model: std::rc::Rc<std::cell::RefCell<PermitModel>>,
+}
+
+impl simworld::gated::Gate for IngestGate {
+    async fn before(&self, method: &'static str) -> Result<(), String> {
+        let Some(me) = stepexec::current_activity() else { return Ok(()) };
+        // Every store call is a scheduling point.
+        stepexec::preempt("ingest.gate", 2).await;
+        if method == "begin" {
+            self.model.borrow_mut().attempt(me);
+        }
+        if method == "prune_entries" {
+            // A pool-level write: SQLite would make it wait for the open write transaction of
+            // another connection. With a single poller that wait could never end, so the harness
+            // serialises it here, at a seam, instead.
+            while std::cell::RefCell::borrow(&self.model).holder.is_some_and(|h| h != me) {
+                stepexec::gate().await;
+            }
+        }
+        Ok(())
+    }
+    fn after(&self, method: &'static str) {
+        if let Some(me) = stepexec::current_activity() {
+            if method == "commit" || method == "rollback" {
+                self.model.borrow_mut().release(me);
+            }
+        }
+    }
+}
+
+type GIS = simworld::gated::GatedStore<p2panda_store::SqliteStore, IngestGate>;
+
+async fn run_concurrent(cfg: &IngestCfg, sqlite: p2panda_store::SqliteStore) {
+    use std::cell::RefCell;
+    use std::rc::Rc;
+    let world = LogWorld::generate(&cfg.world);
+    let t = topic(0);
+    let honest: BTreeMap<Hash, Op> = world.by_hash();
+    let ds = build_schedule(cfg, &world);
+    let n = cfg.concurrent;
+    let mut parts: Vec<Vec<(usize, Delivery)>> = vec![vec![]; n];
+    for (i, d) in ds.iter().enumerate() {
+        parts[ctx::choose("conc.part", n)].push((i, d.clone()));
+    }
+    ev!(
+        "world: {} authors {} logs {} ops; {} deliveries ({} forged) spread over {} concurrent ingest activities ({:?} each); prune_step={}",
+        world.keys.len(),
+        world.logs.len(),
+        world.total_ops(),
+        ds.len(),
+        ds.iter().filter(|d| d.forged.is_some()).count(),
+        n,
+        parts.iter().map(|p| p.len()).collect::<Vec<_>>(),
+        cfg.prune_step
+    );
+    if parts.iter().filter(|p| !p.is_empty()).count() >= 2 {
+        ctx::mark_nontrivial();
+    }
+    let mut keys: BTreeSet<(VerifyingKey, LogIdT)> = world.logs.iter().map(|l| (l.author, l.log_id)).collect();
+    for d in &ds {
+        keys.insert((d.op.header.verifying_key, d.op.header.extensions.log_id));
+    }
+    let model = Rc::new(RefCell::new(PermitModel::default()));
+    let store: GIS = simworld::gated::GatedStore::new(sqlite.clone(), IngestGate { model: model.clone() });
+    let results: Rc<RefCell<BTreeMap<usize, Result<bool, String>>>> = Rc::new(RefCell::new(BTreeMap::new()));
+    let mut ex = stepexec::StepExec::new();
+    let prune_step = cfg.prune_step;
+    for (a, part) in parts.into_iter().enumerate() {
+        let store = store.clone();
+        let model2 = model.clone();
+        let res = results.clone();
+        let act = ex.add(&format!("ingest{a}"), stepexec::Policy::Gated, async move {
+            for (i, d) in part {
+                let op = &d.op;
+                let log_id = op.header.extensions.log_id;
+                let r = ingest_operation(&store, op, &log_id, &t, op.header.extensions.prune).await.map_err(|e| e.to_string());
+                // An error inside the transaction returns with `?`: the permit is dropped (its
+                // rollback runs in a task the store spawned) and goes to the first waiter.
+                model2.borrow_mut().release(a);
+                if prune_step && r.is_ok() && op.header.extensions.prune {
+                    let _ = <GIS as LogStore<Operation<SimExt>, VerifyingKey, LogIdT, SeqNum, Hash>>::prune_entries(&store, &op.header.verifying_key, &log_id, &op.header.seq_num).await;
+                }
+                ev!("ingest{a} deliver[{i}] {}{} -> {:?}", op_label(op), d.forged.map(|f| format!(" FORGED[{f}]")).unwrap_or_default(), r);
+                res.borrow_mut().insert(i, r);
+            }
+        });
+        let m3 = model.clone();
+        ex.set_hint(act, move || std::cell::RefCell::borrow(&m3).holder.is_some_and(|h| h != act));
+    }
+    let mut steps = 0u64;
+    let mut stall: Option<String> = None;
+    loop {
+        match ex.step().await {
+            Ok(stepexec::Step::Quiescent) => {
+                // A live activity that has been handed the permit by a dropped one is only waiting
+                // for the spawned rollback task to release it.
+                let next = std::cell::RefCell::borrow(&model).holder;
+                match next {
+                    Some(h) if ex.is_alive(h) => {
+                        if !ex.wait_for_wake(h).await {
+                            stall = Some(format!("ingest{h} was handed the permit but never woken"));
+                            break;
+                        }
+                    }
+                    _ => break,
+                }
+            }
+            Ok(stepexec::Step::Ran { act, finished }) => {
+                if !finished && !ex.runnable().contains(&act) {
+                    ctx::probe("ingest_parked_in_begin");
+                }
+            }
+            Ok(stepexec::Step::Cancelled { .. }) => {}
+            Err(s) => {
+                stall = Some(format!("store call of {} got no answer (watchdog)", s.name));
+                break;
+            }
+        }
+        steps += 1;
+        if steps > 100_000 {
+            stall = Some("step budget exhausted".into());
+            break;
+        }
+    }
+    let alive: Vec<usize> = (0..n).filter(|a| ex.is_alive(*a)).collect();
+    drop(ex);
+    if let Some(s) = stall {
+        viol(cfg, Which::C03, "ingest-never-completes", "concurrent ingest", s);
+        return;
+    }
+    if !alive.is_empty() {
+        viol(cfg, Which::C03, "ingest-never-completes", "concurrent ingest", format!("activities {alive:?} are still blocked at quiescence; permit holder {:?}", std::cell::RefCell::borrow(&model).holder));
+        return;
+    }
+    // --- oracles over the outcome (verdicts of single deliveries depend on the interleaving and
+    // are not predicted here; the invariants do not) ---
+    let results = std::cell::RefCell::borrow(&results);
+    let mut floor: BTreeMap<(VerifyingKey, LogIdT), SeqNum> = BTreeMap::new();
+    for (i, d) in ds.iter().enumerate() {
+        let Some(r) = results.get(&i) else { continue };
+        if let (Some(kind), Ok(_)) = (&d.forged, r) {
+            viol(cfg, Which::C01, "forged-accepted", kind, format!("{} FORGED[{kind}] was answered {r:?} (concurrent ingest)", op_label(&d.op)));
+        }
+        if d.forged.is_none() && r == &Ok(true) && d.op.header.extensions.prune && honest.contains_key(&d.op.hash) {
+            let k = (d.op.header.verifying_key, d.op.header.extensions.log_id);
+            let f = floor.entry(k).or_insert(d.op.header.seq_num);
+            *f = (*f).max(d.op.header.seq_num);
+        }
+    }
+    let fin = dump_all(&sqlite, &keys).await;
+    let mut total = 0;
+    for (k, es) in &fin {
+        let by_seq: BTreeMap<SeqNum, &(SeqNum, Hash, Vec<u8>, Option<Vec<u8>>)> = es.iter().map(|e| (e.0, e)).collect();
+        let mut seqs = BTreeSet::new();
+        for e in es {
+            total += 1;
+            if !seqs.insert(e.0) {
+                viol(cfg, Which::C03, "duplicate-seq-in-log", "get_log_entries", format!("log {}:{} holds seq {} twice (concurrent ingest)", short_key(&k.0), k.1, e.0));
+            }
+            match honest.get(&e.1) {
+                None => viol(cfg, Which::C01, "stored-id-not-honest", "final-dump", format!("log {}:{} holds {} (concurrent ingest)", short_key(&k.0), k.1, e.1)),
+                Some(h) => {
+                    if e.2 != h.header.to_bytes() {
+                        viol(cfg, Which::C01, "stored-header-bytes-differ", "get_log_entries", op_label(h).to_string());
+                    }
+                    if let Some(b) = &e.3 {
+                        if Some(b) != h.body.as_ref().map(|x| x.to_bytes()).as_ref() {
+                            viol(cfg, Which::C01, "stored-body-differs", "get_log_entries", op_label(h).to_string());
+                        }
+                    }
+                    if e.0 > 0 && !h.header.extensions.prune {
+                        match by_seq.get(&(e.0 - 1)) {
+                            Some(prev) if Some(prev.1) == h.header.backlink => {}
+                            Some(_) => viol(cfg, Which::C03, "backlink-mismatch-in-store", "get_log_entries", format!("{} (concurrent ingest)", op_label(h))),
+                            None => viol(cfg, Which::C03, "gap-before-unflagged-entry", "get_log_entries", format!("{} stored without its predecessor (concurrent ingest)", op_label(h))),
+                        }
+                    }
+                }
+            }
+        }
+        if cfg.prune_step {
+            if let Some(f) = floor.get(k) {
+                if let Some(e) = es.iter().find(|e| e.0 < *f) {
+                    viol(cfg, Which::C05, "pruned-prefix-came-back", "entry below prune point present after concurrent ingest", format!("log {}:{} pruned at {} holds seq {}", short_key(&k.0), k.1, f, e.0));
+                }
             }
         }
     }
